@@ -28,6 +28,7 @@ RULE = (
     "identical copy) - batches of 1-2 pool points for vectorized differential evolution - x speculative x "
     "split_evaluations x {no, non-linear, linear, both} constraints x {slsqp, l-bfgs-b, cobyla, nelder-mead, DE serial, "
     "DE vectorized}. Oracle: every returned value equals the value at that point (truth function / fresh instance), "
+    "a second start() of the same instance on a changed problem serves nothing from the first run (length <=2), "
     "current-point model of the callback invocations (nothing evaluated twice at the current point, no gradients for "
     "gradient-free methods, split never asks for both, speculative changes no value). Layer B (full stack, Hypothesis): "
     "the same grammar (length <=8) through Plan -> EnsembleOptimizer -> plug-in with a recording evaluator. "
@@ -78,11 +79,15 @@ def config_for(mname: str, cons: str, speculative: bool, split: bool) -> EnOptCo
     return EnOptConfig.model_validate(cfg)
 
 
+_EXPECTED: dict[Any, Any] = {}
+
+
 class Recorder:
     """Pure callback F(x), G(x) that records its invocations."""
 
-    def __init__(self, n_con: int) -> None:  # noqa: D107
+    def __init__(self, n_con: int, phase: float = 0.0) -> None:  # noqa: D107
         self.n_con = n_con
+        self.phase = phase  # a constant added to every function value: a "different problem" for a restarted optimizer
         self.calls: list[tuple[np.ndarray, bool, bool]] = []
 
     def __call__(self, variables: np.ndarray, *, return_functions: bool, return_gradients: bool) -> tuple[np.ndarray, np.ndarray]:
@@ -91,6 +96,7 @@ class Recorder:
         g = np.array([])
         if return_functions:
             f = truth_f(variables)[: 1 + self.n_con] if variables.ndim == 1 else np.array([truth_f(v)[: 1 + self.n_con] for v in variables])
+            f = f + self.phase
         if return_gradients:  # (a batch with gradients is itself a violation; the oracle reports it from the record)
             g = truth_g(variables if variables.ndim == 1 else variables[0])[: 1 + self.n_con]
         return f, g
@@ -126,25 +132,55 @@ def issue(mname: str, kw: dict[str, Any], req: tuple[str, int], pts: list[int]) 
     return np.asarray(con["jac"](x), dtype=np.float64)
 
 
-def run_plugin(cfg: EnOptConfig, mname: str, n_con: int, sequence: list[Any]) -> tuple[list[Any], Recorder, list[int]]:
-    """Drive a fresh plug-in instance through `sequence`; returns (returned values, recorder, #invocations before each request)."""
-    rec = Recorder(n_con)
+def run_plugin(cfg: EnOptConfig, mname: str, n_con: int, sequence: list[Any], phase: float = 0.0,
+               restart: list[Any] | None = None) -> tuple[list[Any], Recorder, list[int]]:
+    """Drive a fresh plug-in instance through `sequence`; returns (returned values, recorder, #invocations before each request).
+
+    With `restart` the same instance is started a second time (the problem changes by a constant in between) and driven
+    through `restart`; the values of the second run are appended.
+    """
+    rec = Recorder(n_con, phase)
     out: list[Any] = []
     marks: list[int] = []
+    current = {"seq": sequence}
 
     def driver(cap: Captured) -> None:
         reqs = requests_for(mname, cap.kwargs)
-        for req_i, pts in sequence:
+        for req_i, pts in current["seq"]:
             marks.append(len(rec.calls))
             out.append(issue(mname, cap.kwargs, reqs[req_i], pts))
         marks.append(len(rec.calls))
 
     with capture(driver):
-        SciPyOptimizer(cfg, rec).start(POOL[0].copy())
+        optimizer = SciPyOptimizer(cfg, rec)
+        optimizer.start(POOL[0].copy())
+        if restart is not None:
+            rec.phase = phase + 7.5
+            current["seq"] = restart
+            optimizer.start(POOL[0].copy())
     return out, rec, marks
 
 
-_EXPECTED: dict[Any, Any] = {}
+def run_restart(case: dict[str, Any]) -> None:
+    """A second start() of the same optimizer object must not serve anything kept from the first run."""
+    mname, cons, split = case["method"], case["cons"], case["split"]
+    n_con = 1 if cons in ("nl", "both") else 0
+    seq = [(r, list(p)) for r, p in case["sequence"]]
+    cfg = config_for(mname, cons, False, split)
+    out, _, _ = run_plugin(cfg, mname, n_con, seq, restart=seq)
+    second = out[len(seq):]
+    with capture() as cap:
+        SciPyOptimizer(cfg, Recorder(n_con)).start(POOL[0].copy())
+    reqs = requests_for(mname, cap.kwargs)
+    for i, (req_i, pts) in enumerate(seq):
+        key = ("restart", mname, cons, split, req_i, tuple(pts))
+        if key not in _EXPECTED:
+            _EXPECTED[key] = run_plugin(cfg, mname, n_con, [(req_i, pts)], phase=7.5)[0]
+        exp = _EXPECTED[key]
+        kind = reqs[req_i][0]
+        check(np.shape(second[i]) == np.shape(exp[0]) and bool(np.allclose(second[i], exp[0], rtol=1e-12, atol=1e-12)),
+              "stale-after-restart", f"second start(), request #{i} {kind}{reqs[req_i][1]} at pool {pts}: returned "
+              f"{np.asarray(second[i]).tolist()}, the value of the (changed) problem at that point is {np.asarray(exp[0]).tolist()}", case)
 
 
 def expected_value(key: tuple[Any, ...], cfg: EnOptConfig, mname: str, n_con: int, req_i: int, pts: list[int]) -> np.ndarray:
@@ -237,6 +273,9 @@ def exhaustive_shard(item: dict[str, Any]) -> Collector:
                 info.update(run_sequence(case))
 
             guard_call(col, case, go)
+            if length <= 2:  # noqa: PLR2004
+                rcase = {**case, "restart": True}
+                guard_call(col, rcase, lambda rcase=rcase: run_restart(rcase))
             states += 1
             transitions += 2 * length
             col.case((mname, cons, split, seq), nontrivial=bool(info.get("new_point_first")),
@@ -433,5 +472,7 @@ def run_shard(item: dict[str, Any]) -> Collector:
 def replay(case: dict[str, Any]) -> None:
     if case.get("layer") == "B":
         run_stack_case(case)
+    elif case.get("restart"):
+        run_restart(case)
     else:
         run_sequence(case)
